@@ -1,5 +1,5 @@
 //! Generator G: spec-side model of module sets (DESIGN.md §3), random construction, token rendering.
-use crate::core::Rng;
+use crate::core::{hash_str, Rng};
 use std::collections::BTreeMap;
 
 #[derive(Clone, Copy, Debug, PartialEq, Eq, Hash, PartialOrd, Ord)]
@@ -1041,6 +1041,7 @@ impl<'a> Gen<'a> {
         }
         let mut s = Struct { root, ext, root2 };
         self.assign_tags(&mut s, choice);
+        self.vary_tags(&mut s);
         s
     }
 
@@ -1081,6 +1082,87 @@ impl<'a> Gen<'a> {
         }
         for c in s.root2.iter_mut() {
             each(self, c, &mut n);
+        }
+    }
+
+    /// Tag layouts the plain numbering never produces, drawn from a generator of their own so that the main random stream
+    /// (and with it every previously explored input) stays the same:
+    /// * all components tagged: the tag numbers of the root components are permuted (source order != tag order);
+    /// * AUTOMATIC TAGS module, nothing tagged: exactly one component (possibly an extension addition) gets a context tag,
+    ///   which switches automatic tagging off for the whole type (X.680 25.7) — only when the components that stay
+    ///   untagged are built-in non-CHOICE types with pairwise distinct universal tags, so the type stays legal.
+    fn vary_tags(&mut self, s: &mut Struct) {
+        let mut toks = vec![];
+        for c in s.root.iter().chain(s.root2.iter()) {
+            toks.push(c.name.clone());
+        }
+        let mut r = Rng::for_case(hash_str(&toks.join(",")), 77, s.root.len() as u64);
+        let all_tagged = !s.root.is_empty() && struct_comps(s).iter().all(|c| c.ty.tag.as_ref().is_some_and(|t| t.class == TagClass::Context));
+        if all_tagged && s.root.len() >= 2 && r.chance(1, 3) {
+            let mut nums: Vec<u32> = s.root.iter().map(|c| c.ty.tag.as_ref().unwrap().num).collect();
+            r.shuffle(&mut nums);
+            for (c, n) in s.root.iter_mut().zip(nums) {
+                c.ty.tag.as_mut().unwrap().num = n;
+            }
+            return;
+        }
+        let none_tagged = struct_comps(s).iter().all(|c| c.ty.tag.is_none());
+        if self.tagging.is_automatic() && self.o.tags && none_tagged && r.chance(1, 5) {
+            fn utag(t: &Ty) -> Option<u32> {
+                Some(match &t.kind {
+                    TyKind::Boolean => 1,
+                    TyKind::Integer { .. } => 2,
+                    TyKind::BitString { .. } => 3,
+                    TyKind::OctetString => 4,
+                    TyKind::Null => 5,
+                    TyKind::Oid => 6,
+                    TyKind::Enumerated(_) => 10,
+                    TyKind::Sequence(_) | TyKind::SeqOf(_) => 16,
+                    TyKind::Set(_) | TyKind::SetOf(_) => 17,
+                    TyKind::UtcTime => 23,
+                    TyKind::GenTime => 24,
+                    _ => return None,
+                })
+            }
+            let n = struct_comps(s).len();
+            if n < 2 {
+                return;
+            }
+            let pick = r.below(n);
+            let mut seen = std::collections::BTreeSet::new();
+            for (i, c) in struct_comps(s).iter().enumerate() {
+                if i == pick {
+                    continue;
+                }
+                match utag(&c.ty) {
+                    Some(u) if seen.insert(u) => {}
+                    _ => return,
+                }
+            }
+            // groups are left alone (a tagged group member is a case of its own)
+            let mut i = 0;
+            let mut hit = |c: &mut Comp, i: &mut usize| {
+                if *i == pick {
+                    c.ty.tag = Some(Tag { class: TagClass::Context, num: 40 + (pick as u32), mode: if matches!(c.ty.kind, TyKind::Choice(_) | TyKind::Any | TyKind::Ref { .. } | TyKind::ClassField { .. }) { TagMode::Explicit } else { TagMode::NoKeyword } });
+                }
+                *i += 1;
+            };
+            for c in s.root.iter_mut() {
+                hit(c, &mut i);
+            }
+            for a in s.ext.iter_mut().flatten() {
+                match a {
+                    Addition::Comp(c) => hit(c, &mut i),
+                    Addition::Group { comps, .. } => {
+                        for c in comps.iter_mut() {
+                            hit(c, &mut i);
+                        }
+                    }
+                }
+            }
+            for c in s.root2.iter_mut() {
+                hit(c, &mut i);
+            }
         }
     }
 
